@@ -427,6 +427,7 @@ def canon_compare(tree: ast.AST, modname: str = "") -> ast.AST:
         from .inline import expand_module
         if expand_module(tree, modname):
             ast.fix_missing_locations(tree)
+            _unroll_const_loops(tree)          # a loop over constant names whose body became visible by the expansion
             _inline_return_temps(tree)
     return ast.fix_missing_locations(tree)
 
